@@ -147,6 +147,30 @@ def scenarios(tier):
             out[-1]['in_cfg'] = vin_cfg
             if vout_cfg is not None:
                 out[-1]['out_cfg'] = vout_cfg
+        # 1d. the SERIALISER fails inside the real dump call (not an injected OSError): a {token}
+        #     resolves to a value the format cannot represent, or to a character encodingOut
+        #     cannot encode; some chunks may already have been written
+        if not stream:
+            def payload(tok):
+                o = {'n0': '{k}', 'n1': tok, 'n2': 'plain'}
+                if step == 'fileformatjson':
+                    return json.dumps(o)
+                if step == 'fileformatyaml':
+                    return ''.join(f'{a}: {json.dumps(b)}\n' for a, b in o.items())
+                import tomli_w
+                return tomli_w.dumps(o)
+            for label, val, enc in (('dumpfail/object', {'__obj__': 1}, None),
+                                    ('dumpfail/set', {'__set__': [1, 2]}, None),
+                                    ('dumpfail/encoding-ascii', 'caf\u00e9 \u2603', 'ascii'),
+                                    ('dumpfail/encoding-latin1', 'snow \u2603', 'latin-1')):
+                if enc and step == 'fileformattoml':
+                    continue            # toml is written in binary mode, always utf-8
+                if label == 'dumpfail/set' and step == 'fileformatyaml':
+                    continue            # ruamel represents a set
+                mk([[f'a.{ext}', payload('{bad}')]], f'a.{ext}', None, {}, label)
+                out[-1]['ctx'] = CTX + [['bad', val]]
+                if enc:
+                    out[-1]['enc_out'] = enc
         # 2. formatting failure at every item position
         if step != 'filereplace':
             for size in sizes[1:]:
